@@ -16,6 +16,7 @@ theorem inv4_step (s s' : State) (e : Ev) (h1 : Inv1 s) (ha : Inv3a s) (hd : Inv
   | dTimeout i => exact inv4_dTimeout cfg s s' i h1 ha hd hI h
   | dPacket i => exact inv4_dPacket cfg s s' i h1 ha hd hI h
   | dSend i => exact inv4_dSend cfg s s' i h1 ha hd hI h
+  | uFail i => exact inv4_uFail cfg s s' i h1 ha hd hI h
   | cleanup i => exact inv4_cleanup cfg s s' i h1 ha hd hI h
   | uRecv i k => exact inv4_uRecv cfg s s' i k h1 ha hd hI h
   | uStep i => exact inv4_uStep cfg s s' i h1 ha hd hI h
